@@ -641,6 +641,15 @@ func (c *Cluster) WAL(n *Node, group uuid.UUID) *RecWAL {
 	return c.wals[key(n.Id, group, n.Incarnation)]
 }
 
+// PrevWAL returns the recorder the node's previous incarnation used for the
+// group: once that incarnation's loops have ended its view is exactly what
+// the incarnation made durable.
+func (c *Cluster) PrevWAL(n *Node, group uuid.UUID) *RecWAL {
+	c.mu.Lock()
+	defer c.mu.Unlock()
+	return c.wals[key(n.Id, group, n.Incarnation-1)]
+}
+
 // ---- gRPC interceptors ----------------------------------------------------
 
 var ErrNodeDown = errors.New("sim: node down")
